@@ -14,6 +14,10 @@ def run(ctx):
     for i in bad["C09"]:
         vlib.report_failure(ctx, "C09/tables", "a MIR table is not exactly the reachable / referenced set (Spec/MirSpec.v C09b)",
                             mp.replay_payload(progs[i], results[i]))
+    # a second compilation in one process that shares module-level literals with the first: the literal table of the second
+    # MIR must hold exactly the literals that program needs (decided against the program: C09b + the literal part of faithfulb)
+    mp.second_compilation_case(ctx, {"C09b": mp.on_mir("C09b"), "literals-needed": mp.on_case("faithfulb")},
+                               lambda name, prog, res: ("C09/tables", "a MIR table is not exactly what the program's outputs need"))
     if ok_x:
         dis = mp.tie_model(ctx, progs, results)
         if dis is not None:
